@@ -247,7 +247,11 @@ class FsTap:
 
     # ---- patched entry points
     def _open(self, file, mode="r", buffering=-1, *a, **kw):
-        if isinstance(file, int) or not self._mine(file) or not any(c in mode for c in "wax+"):
+        if isinstance(file, int) or not self._mine(file) or not any(c in mode for c in "wax+") or "b" not in mode:
+            # (text-mode writers are not modelled: they pass through untapped -- the Impl layer would show
+            #  drift, the verdict layer still sees the resulting directory)
+            if self.dead and not isinstance(file, int) and self._mine(file) and any(c in mode for c in "wax+"):
+                raise Crash("dead")
             return self._saved["open"](file, mode, buffering, *a, **kw)
         path = self._abs(file)
         existed = os.path.exists(path)
@@ -259,8 +263,6 @@ class FsTap:
             if self.dead:
                 raise Crash("dead")
             raw = io.FileIO(path, mode.replace("b", "").replace("t", ""))
-        if "b" not in mode:
-            raise NotImplementedError("text-mode open for writing is not modelled: %r %r" % (file, mode))
         return TapFile(self, raw, path, buffering != 0)
 
     def _os_open(self, path, flags, mode=0o777, *a, **kw):
